@@ -203,7 +203,7 @@ func (w *MWorld) applyCond(op Op, self string, el ElemFn, wt WorldText) []Alt {
 }
 
 // cmpCond compares the real condition i with the model.
-func cmpCond(x *Exec, i int, m *MCond) string {
+func cmpCond(x *Exec, i int, m *MCond, k histKeys) string {
 	w := x.w
 	c := w.objs[i].keepC
 	if h := *w.objs[i].C; !h.IsZero() {
@@ -226,7 +226,7 @@ func cmpCond(x *Exec, i int, m *MCond) string {
 	if g := w.describe(c.Expression()); g != wex {
 		return fmt.Sprintf("Expression()=%s, most recently accepted %s", g, wex)
 	}
-	if _, has := m.Pol["valid"]; !has {
+	if _, has := m.Pol["valid"]; !has && k.condFull {
 		err := c.Valid()
 		if (err == nil) != m.valid() {
 			return fmt.Sprintf("Valid()=%v but keyword %q, operator %s, expression %s", err, m.Kw, m.Op, wex)
@@ -243,7 +243,7 @@ func cmpCond(x *Exec, i int, m *MCond) string {
 			}
 		}
 	}
-	if m.Err != wild {
+	if m.Err != wild && k.condFull {
 		g := w.describe(c.Err())
 		if m.Err == "err" {
 			if g == "nil" {
@@ -253,11 +253,16 @@ func cmpCond(x *Exec, i int, m *MCond) string {
 			return fmt.Sprintf("Err()=%s, expected %s", g, m.Err)
 		}
 	}
-	if g := c.CanNest(); g != !m.Opt["nnest"] {
-		return fmt.Sprintf("CanNest()=%v while no-nesting is %v", g, m.Opt["nnest"])
+	if k.nest || k.condFull {
+		if g := c.CanNest(); g != !m.Opt["nnest"] {
+			return fmt.Sprintf("CanNest()=%v while no-nesting is %v", g, m.Opt["nnest"])
+		}
+		if g := c.IsNesting(); g != (m.ExSet && m.Ex.IsStack) {
+			return fmt.Sprintf("IsNesting()=%v, expression is a stack: %v", g, m.ExSet && m.Ex.IsStack)
+		}
 	}
-	if g := c.IsNesting(); g != (m.ExSet && m.Ex.IsStack) {
-		return fmt.Sprintf("IsNesting()=%v, expression is a stack: %v", g, m.ExSet && m.Ex.IsStack)
+	if !k.opts && !k.condFull {
+		return ""
 	}
 	if g := c.IsParen(); g != m.Opt["paren"] {
 		return fmt.Sprintf("IsParen()=%v, expected %v", g, m.Opt["paren"])
